@@ -126,7 +126,7 @@ pub fn run(run: &Run) {
          message with at least one cut strictly inside a multi-byte field; distinct by message; sub_evaluations counts the prefixes",
     );
     run.regressions(&replay);
-    run.random("prefixes", run.cases(150_000, 2_000_000), 0.5, strategy, check);
+    run.random("prefixes", run.cases(400_000, 4_000_000), 0.5, strategy, check);
 }
 
 pub fn replay(_section: &str, case: &Json) -> Option<CheckResult> {
